@@ -772,7 +772,7 @@ func Main(args []string) int {
 	jobs = append(jobs, job{"tcp", map[string]string{"kind": "tcp"}})
 	results := make([][]rec.Event, len(jobs))
 	var wg sync.WaitGroup
-	sem := make(chan struct{}, 24)
+	sem := make(chan struct{}, 10)
 	for i := range jobs {
 		wg.Add(1)
 		sem <- struct{}{}
